@@ -74,12 +74,13 @@ struct Foreign { int x; };
 
 // ------------------------------------------------------------------ separate-process seams (C11)
 struct ProcState {
-    bool inChild, synthetic; int (*realFork)(); int (*realWaitPid)(int, int*, int);
+    bool inChild, synthetic; bool active;      // active: fork()/waitpid() calls belong to the simulated run (the library's own platform functions run for real, libc's are wrapped at link time)
     int test; Vec<Op> script; size_t pos; int64_t eintrLeft; int nextFake; int waitCalls;
     Vec<int> livePids;
     int pipeFd[2]; size_t childFlushPos;
 };
 static ProcState PS;
+extern "C" pid_t __real_fork(void); extern "C" pid_t __real_waitpid(pid_t, int*, int);
 static void childFlushHook() {      // in a forked child: console bytes reach the outside world only when they are flushed
     if (!PS.inChild || PS.pipeFd[1] < 0) return;
     const Str& c = simIO().console;
@@ -94,7 +95,7 @@ static int simFork() {
     for (size_t i = 0; i < PS.script.size(); i++) if (PS.script[i].kind == K_FORK_FAIL) { procLog(5, 0); fired("fork_fail"); errno = EAGAIN; return -1; }
     if (PS.synthetic) return 1000000 + PS.nextFake++;
     fflush(0);
-    int pid = PS.realFork();
+    int pid = (int)__real_fork();
     if (pid == 0) { PS.inChild = true; PS.childFlushPos = simIO().console.size(); return 0; }
     if (pid > 0) PS.livePids.push_back(pid);
     return pid;
@@ -119,15 +120,17 @@ static int simWaitPid(int pid, int* status, int options) {
         if (o.kind == K_W_SIGNAL) { fired("child_signal"); *status = (int)(o.a | (o.b ? 0x80 : 0)); return pid; }
     }
     if (PS.synthetic) { procLog(4, PS.waitCalls); *status = 0; return pid; }     // the code under test keeps waiting although the child is gone: reported as a hang
-    int r = PS.realWaitPid(pid, status, options);
+    int r = (int)__real_waitpid(pid, status, options);
     drainChildPipe(RS.o->childConsole);
     if (r == pid && (WIFEXITED(*status) || WIFSIGNALED(*status))) { for (size_t i = 0; i < PS.livePids.size(); i++) if (PS.livePids[i] == pid) { PS.livePids.erase(PS.livePids.begin() + (long)i); break; } fired(WIFSIGNALED(*status) ? "real_child_killed_by_signal" : "real_child_exited"); }
     else if (r == pid && WIFSTOPPED(*status)) fired("real_child_stopped");
     return r;
 }
+extern "C" pid_t __wrap_fork(void) { return PS.active ? (pid_t)simFork() : __real_fork(); }
+extern "C" pid_t __wrap_waitpid(pid_t pid, int* status, int options) { return PS.active ? (pid_t)simWaitPid((int)pid, status, options) : __real_waitpid(pid, status, options); }
 extern "C" int __real_kill(pid_t pid, int sig);
 extern "C" int __wrap_kill(pid_t pid, int sig) {
-    if (RS.o && PS.realFork) { procLog(3, sig); if (pid >= 1000000) return 0; }
+    if (RS.o && PS.active) { procLog(3, sig); if (pid >= 1000000) return 0; }
     return __real_kill(pid, sig);
 }
 
@@ -269,6 +272,7 @@ static void execOp(const Group& T, const Op& o) {
     case K_DIE_ABORT: if (PS.inChild) { signal(SIGABRT, SIG_DFL); abort(); } break;
     case K_DIE_STOP: if (PS.inChild) raise(SIGSTOP); break;       // (SIGSTOP can be neither ignored nor blocked)
     case K_PLUGIN_INSTALL: { size_t p = (size_t)o.a; if (p < RS.pluginObjs.size() && !RS.pluginInstalled[p]) { RS.reg->installPlugin(RS.pluginObjs[p]); RS.pluginInstalled[p] = 1; } break; }
+    case K_ADD_FAILURES: { UtestShell* cur = UtestShell::getCurrent(); for (int64_t n = 0; n < o.a; n++) cur->addFailure(TestFailure(cur, file, line, SimpleString(text))); break; }
     case K_PLUGIN_REMOVE: { size_t p = (size_t)o.a; if (p < RS.pluginObjs.size()) { if (!RS.pluginInstalled[p]) fired("remove_plugin_name_that_is_not_installed"); RS.reg->removePluginByName(RS.pluginObjs[p]->getName()); RS.pluginInstalled[p] = 0; } break; }   // a name that is not installed: nothing may change
     case K_PTR_SET: UT_PTR_SET(g_tgt[o.a % N_TARGETS], (void*)&g_val[o.b % N_VALUES]); break;
     default: break;
@@ -438,7 +442,7 @@ void executeRun(const Desc& d, Obs& o) {
     if (simRand().mode) fired("rand_adversarial");
     SimJmp& J = simJmp(); o.depthAtStart = J.depth(); J.maxDepth = J.depth();
 
-    if (!PS.realFork) { PS.realFork = PlatformSpecificFork; PS.realWaitPid = PlatformSpecificWaitPid; PlatformSpecificFork = simFork; PlatformSpecificWaitPid = simWaitPid; }
+    PS.active = true;
     PS.pipeFd[0] = PS.pipeFd[1] = -1;
     if (d.pi("separate") && !d.pi("synthetic")) { if (pipe(PS.pipeFd) == 0) { fcntl(PS.pipeFd[0], F_SETFL, O_NONBLOCK); } else PS.pipeFd[0] = PS.pipeFd[1] = -1; }
     simIO().flushHook = childFlushHook;
@@ -536,7 +540,8 @@ void executeRun(const Desc& d, Obs& o) {
     savedReg->setCurrentRegistry(0);
     (void)savedReg;
 
-    for (size_t i = 0; i < PS.livePids.size(); i++) { __real_kill(PS.livePids[i], SIGKILL); __real_kill(PS.livePids[i], SIGCONT); int st; while (PS.realWaitPid(PS.livePids[i], &st, 0) < 0 && errno == EINTR) {} }
+    PS.active = false;
+    for (size_t i = 0; i < PS.livePids.size(); i++) { __real_kill(PS.livePids[i], SIGKILL); __real_kill(PS.livePids[i], SIGCONT); int st; while (__real_waitpid(PS.livePids[i], &st, 0) < 0 && errno == EINTR) {} }
     PS.livePids.clear();
     drainChildPipe(o.childConsole);
     if (PS.pipeFd[0] >= 0) { close(PS.pipeFd[0]); close(PS.pipeFd[1]); PS.pipeFd[0] = PS.pipeFd[1] = -1; }
@@ -560,7 +565,7 @@ void executeRun(const Desc& d, Obs& o) {
     for (size_t i = 0; i < plugins.size(); i++) { plugins[i]->~SimPlugin(); ::free(plugins[i]); }
     for (size_t i = 0; i < owned.size(); i++) { owned[i]->~UtestShell(); ::free(owned[i]); }
 
-    static const char* const firedNames[K_COUNT] = { 0, 0, 0, "fail_check_cpp", "fail_check_c_longjmp", "throw_std", "throw_foreign", 0, 0, 0, 0, 0, 0, 0, 0, 0, 0, 0, 0, 0, 0, 0, 0, 0, 0, 0, "plugin_installed_mid_run", "plugin_removed_mid_run" };
+    static const char* const firedNames[K_COUNT] = { 0, 0, 0, "fail_check_cpp", "fail_check_c_longjmp", "throw_std", "throw_foreign", 0, 0, 0, 0, 0, 0, 0, 0, 0, 0, 0, 0, 0, 0, 0, 0, 0, 0, 0, "plugin_installed_mid_run", "plugin_removed_mid_run", "failures_added_without_leaving_the_phase" };
     for (int k = 0; k < K_COUNT; k++) { if (firedNames[k] && g_fired[k]) fired(firedNames[k], g_fired[k]); g_fired[k] = 0; }
     SimIO& io = simIO();
     o.console = io.console; o.writesAfterClose = io.writesAfterClose; o.badHandle = io.badHandle;
